@@ -88,6 +88,13 @@ CLAIMED = {
                      "with any number of spurious re-polls, yields Ready only after the source terminated, with the source's error or all its items in order; a parked poller always has a token pending "
                      "once the source has finished and reaches Ready within three of its own steps. Tie: the real to_vec is awaited by a minimal parking executor under thousands of controlled schedules; "
                      "result, termination and poll count must lie within the outcomes of the extracted model explored exhaustively."),
+    "C07": dict(engine="coq-seq", design="DESIGN.md 6 C07",
+                technique="machine-checked proof in Coq (lock-order theorem: threads that request locks in increasing order of one measure over lock instances admit no deadlocked set, for any number of threads, locks, modes and interleavings; soundness of the executable order checker) applied to the nested acquisitions recorded on the real crate under a deterministic scheduling runtime, + schedule exploration for deadlock / self-deadlock / livelock statuses, + sequential correspondence of the SelfDeadlock outcome of the worklist machine",
+                text="Theorems C07_ordered_locks_no_deadlock / C07_no_self_deadlock / C07_checker_sound. PARTIAL: Coq decides the lock-order argument and the checker; that the recorded nested acquisitions are all the crate makes, that critical sections terminate "
+                     "and that no producer spins are decided by exploration. Tie, concurrent: a catalogue of ~170 concurrent scenarios (those of C05, C08, C09, C11, C12, C18, C19 plus re-entrant callbacks; a third with std's writer-preferring RwLock modelled) under random / PCT schedules: "
+                     "every run must end (no deadlock / self-deadlock / step-limit status) and the extracted checker edges_ok must accept every run's nested acquisitions (lock held -> lock requested, by creation site and creation number) for ONE order computed over all runs "
+                     "(on the unchanged tree: 26 lock classes, 23 levels, the pipeline chain observer -> controller -> observer ordered by creation number, ~7000 edges, none rejected). Tie, sequential: subscribers that unsubscribe themselves, emit into or subscribe to the subject "
+                     "calling them, at every callback index, over the four subject kinds, connectables and short pipelines: a run that must be killed is a violation and must be predicted by the worklist machine. Known finding D14 (re-entrant emit during a Behavior/Replay hand-over)."),
     "C09": dict(engine="coq-conc", design="DESIGN.md 6 C09",
                 technique="machine-checked proof in Coq (invariant of the composition posting observer + C08 queue transition system + task body, for every interleaving of emitter, worker and unsubscriber; completeness at quiescence) + correspondence under a deterministic scheduling runtime (script oracle, thread affinity and mutual exclusion on every observed schedule; implementation log set within the model's exhaustively explored log set)",
                 text="Theorems C09_observe_on_prefix (at every moment the subscriber has received events 0..m-1 of the source in order, each once; tasks run one at a time on the worker; posted = started ++ discarded ++ queued), "
